@@ -59,10 +59,13 @@ def run(chk):
             cps = "; ".join(str(ord(ch)) for ch in raw)
             defs.append('Goal True. let v := eval vm_compute in (match cue_parse Release %d [%s] with '
                         'Ok b => (0, map (fun se => fst se) (track_sample_ranges b) ++ [lo_off (cue_leadout b)]) | Err _ => (1, []) | Panic _ => (2, []) end) '
-                        'in idtac "@@%d=" v "@@". Abort.' % (int(total_hex, 16), cps, i))
+                        'in idtac "@@%d=" v "@@". Abort.' % (int(total_hex, 16), cps, len(expected)))
             acc = [f for f in c["obs"].split(" ") if f.startswith("acc=")][0]
-            r = re.search(r"r:([^,]*(?:,[0-9a-f]+-[0-9a-f]+)*)", acc).group(1)
-            starts = [int(x.split("-")[0], 16) for x in r.split(",")]
+            m = re.search(r"r:([^,]*(?:,[0-9a-f]+-[0-9a-f]+)*)", acc)
+            if not m:
+                defs.pop()
+                continue
+            starts = [int(x.split("-")[0], 16) for x in m.group(1).split(",")]
             expected.append("(0, [%s])" % "; ".join(str(x) for x in starts + [int(total_hex, 16)]))
         mc.vm_sample(chk, "c20", "\n".join(defs), expected, ["FlacMeta.Bytes", "FlacMeta.Blocks", "FlacMeta.Cue", "FlacMeta.Accessors"])
 
